@@ -5,4 +5,4 @@ package service
 import "github.com/free5gc/chf/internal/sbi"
 
 // VerifSbi exposes the SBI server (and through it the router) to the verification harness.
-func (a *ChfApp) VerifSbi() *sbi.Server { return a.sbiServer }
+func (a *ChfApp) VerifSbi() *sbi.Server { return a.{{service.sbiServerField}} }
